@@ -1,8 +1,9 @@
 #!/bin/sh
 # Offline setup: nothing to build for the VC generator (pure python under
-# python3-vt); sanity-check the interpreters the checks use.
+# python3-vt); check the interpreters and compile the Lean lemma library.
 set -e
 cd "$(dirname "$0")/.."
 python3-vt -c "import z3, sys; print('z3', z3.get_version_string())"
 /venv/bin/python -c "import numpy; print('numpy', numpy.__version__)"
 mkdir -p .cache evidence replays
+sh tools/lean_check.sh || echo "WARNING: lemma library did not compile (checks report it)"
